@@ -4,6 +4,7 @@
 #include <errno.h>
 #include <link.h>
 #include <locale.h>
+#include <langinfo.h>
 #include <map>
 #include <pthread.h>
 #include <search.h>
@@ -34,7 +35,8 @@ const char* const kProbeNames[PR_N] = {
     "oom_handled_failure_path", "oom_swallowed", "fractional_subscript_parsed_in_decimal_comma_locale", "error_object_alive_10_ops",
     "preemption_at_visible_operation", "duplicate_add_rejected", "readfile_ok_multi_crystal", "copy_mutated_before_release",
     "readfile_ok_under_short_reads", "nested_formula_parsed", "cp_nist_fallback_taken", "error_propagated",
-    "shared_crystal_used_by_2_tasks", "readfile_hit_eio", "readfile_truncated_rejected", "array_zero_capacity_used"};
+    "shared_crystal_used_by_2_tasks", "readfile_hit_eio", "readfile_truncated_rejected", "array_zero_capacity_used",
+    "formula_parsed_under_callers_thread_locale", "formula_rejected_under_callers_thread_locale", "readfile_under_callers_thread_locale"};
 
 Shared* SH = nullptr;
 uint8_t* g_cov = nullptr;
@@ -683,10 +685,18 @@ char* xs_setlocale(int cat, const char* name) {
 }
 // POSIX per-thread locales: objects are tracked like allocations (a forgotten freelocale is a leak,
 // newlocale/duplocale can fail with ENOMEM); uselocale only touches the calling thread
+static bool lib_owns(const void* p) { return g_live.find((uintptr_t)p) != g_live.end(); }
+static void locale_foreign(const char* call, locale_t l) {
+  // every locale object the library may consume or release is one it made itself with newlocale/duplocale
+  if (l == (locale_t)0 || l == LC_GLOBAL_LOCALE || lib_owns((void*)l)) return;
+  violation("locale-ownership", t_task->cur_fn[0] ? t_task->cur_fn : SH->cur_fn, "%s applied to a locale object the library did not create%s", call,
+            (void*)l == t_task->caller_loc ? " (the one the calling thread installed with uselocale)" : "");
+}
 locale_t xs_newlocale(int mask, const char* name, locale_t base) {
   SH->seam_calls++;
   if (alloc_gate(0, "newlocale")) return (locale_t)0;   // on failure the base is left untouched
   uintptr_t s0 = RA0, s1 = ra1();
+  locale_foreign("newlocale(.., base), which takes ownership of base,", base);
   if (base) alloc_forget((void*)base, "newlocale(base)");
   locale_t r = newlocale(mask, name, base);
   if (r) alloc_record((void*)r, 1, "newlocale", s0, s1);
@@ -702,6 +712,7 @@ locale_t xs_duplocale(locale_t l) {
 }
 void xs_freelocale(locale_t l) {
   SH->seam_calls++;
+  locale_foreign("freelocale", l);
   alloc_forget((void*)l, "freelocale");
   freelocale(l);
 }
@@ -941,5 +952,71 @@ bool apply_locale(int cfg) {
   const char* a = setlocale(LC_ALL, nullptr);
   g_locale_all = a ? a : "";
   return ok;
+}
+
+// ---- the caller's own per-thread locale (plan field tloc)
+extern "C" int __asan_address_is_poisoned(void const volatile* addr);
+static void locale_signature(locale_t l, char* out, size_t n) {
+  // category names and the radix character; glibc keeps the names in the object itself
+  uint64_t h = 1469598103934665603ull;
+  for (int c = 0; c < 13; c++) {
+    if (c == LC_ALL) continue;
+    const char* nm = ((struct __locale_struct*)l)->__names[c];
+    for (const char* q = nm ? nm : "?"; *q; q++) h = (h ^ (unsigned char)*q) * 1099511628211ull;
+    h = (h ^ 0xff) * 1099511628211ull;
+  }
+  const char* rad = nl_langinfo_l(RADIXCHAR, l);
+  snprintf(out, n, "%016llx radix='%s'", (unsigned long long)h, rad ? rad : "?");
+}
+void caller_locale_install(int kind) {
+  TaskCtx* t = t_task;
+  t->caller_loc = nullptr;
+  t->caller_loc_kind = kind;
+  if (kind == TLOC_NONE) return;
+  locale_t l = duplocale(LC_GLOBAL_LOCALE);
+  if (l && kind == TLOC_XX) { locale_t m = newlocale(LC_NUMERIC_MASK, "xx_XX", l); if (!m) { freelocale(l); l = (locale_t)0; } else l = m; }
+  if (l && kind == TLOC_C) { locale_t m = newlocale(LC_NUMERIC_MASK, "C", l); if (!m) { freelocale(l); l = (locale_t)0; } else l = m; }
+  if (!l) { fprintf(stderr, "xrlsim: cannot build the caller's thread locale (kind %d)\n", kind); child_exit(3); }
+  uselocale(l);
+  t->caller_loc = (void*)l;
+  locale_signature(l, t->caller_loc_sig, sizeof t->caller_loc_sig);
+  logf("TLOC t%d kind=%d %s", t->id, kind, t->caller_loc_sig);
+}
+void caller_locale_check(bool identity, const char* fn) {
+  TaskCtx* t = t_task;
+  if (!t->caller_loc) return;
+  locale_t l = (locale_t)t->caller_loc;
+  bool broken = false;
+  if (__asan_address_is_poisoned(l)) {
+    violation("locale-ownership", fn, "the locale object the calling thread had installed with uselocale() has been released by the call");
+    broken = true;
+  } else {
+    char now[96];
+    locale_signature(l, now, sizeof now);
+    if (strcmp(now, t->caller_loc_sig)) {
+      violation("locale-ownership", fn, "the locale object the calling thread had installed was modified by the call: %s, was %s", now, t->caller_loc_sig);
+      broken = true;
+    }
+  }
+  if (!broken && uselocale((locale_t)0) != l) {
+    if (identity)
+      violation("global-state", fn, "the calling thread had its own locale installed (uselocale) and is left with %s after the call",
+                uselocale((locale_t)0) == LC_GLOBAL_LOCALE ? "the process locale" : "another locale object");
+    uselocale(l);   // blame the call once
+  }
+  if (broken) {
+    // give the rest of the run a valid thread locale again (the old object is not touched any more)
+    int kind = t->caller_loc_kind;
+    uselocale(LC_GLOBAL_LOCALE);
+    caller_locale_install(kind);
+  }
+}
+void caller_locale_remove() {
+  TaskCtx* t = t_task;
+  if (!t->caller_loc) return;
+  locale_t l = (locale_t)t->caller_loc;
+  uselocale(LC_GLOBAL_LOCALE);
+  if (!__asan_address_is_poisoned(l)) freelocale(l);
+  t->caller_loc = nullptr;
 }
 }  // namespace xs
